@@ -100,6 +100,7 @@ type Exec struct {
 	identSeen  []*Term
 
 	// happens-before race detection (vector clocks) over recorded goroutines
+	cmd          cmdEnv
 	deadline     time.Time
 	aliasResolve bool // resolve select-over-store aliasing with the solver under the path condition
 	aliasQ       int
@@ -109,6 +110,27 @@ type Exec struct {
 	locs      map[string]*locState
 	ctxRel    map[int][]int
 	raceSeen  map[string]bool
+}
+
+// environment of the command-line tools (C19): flags, the input file and the
+// ordered output written through bufio
+type flagReg struct {
+	p    *PtrV
+	name string
+}
+
+type outSeg struct{ arr, off, n *Term }
+
+type cmdEnv struct {
+	regs     []flagReg
+	flags    map[string]Value
+	file     *SliceV
+	fileName *StringV
+	readName *StringV
+	out      []outSeg
+	pending  []outSeg
+	flushed  bool
+	closed   bool
 }
 
 type accessRec struct {
@@ -159,6 +181,7 @@ func (e *Exec) resetPath(prefix []decision) {
 	e.output = map[string][]Value{}
 	e.inStep = 0
 	e.identSeen = nil
+	e.cmd = cmdEnv{flags: map[string]Value{}}
 	e.curThread = 0
 	e.vcs = [][]int{{1}}
 	e.locs = map[string]*locState{}
